@@ -220,6 +220,12 @@ theorem after_events (E : Env τ ω) (s : St τ ω) (e : Entry τ) (rest : List 
   unfold after newEvents isDue
   split <;> simp_all
 
+theorem after_world (E : Env τ ω) (s : St τ ω) (e : Entry τ) (rest : List (Entry τ)) :
+    (after E s e rest).world =
+      if isDue s e then (E.send .loop e.id (E.desire s.world e.id) s.storeStamp s.world).2 else s.world := by
+  unfold after isDue
+  split <;> simp_all
+
 theorem ids_kept (E : Env τ ω) (s : St τ ω) (e : Entry τ) : ∀ x ∈ kept E s e, x.id = e.id := by
   unfold kept
   intro x hx
